@@ -56,7 +56,7 @@ func A() {
 	x := 1 // A-FIRST
 	//«c2»
 	fmt.Println(x, // A-MULTI
-		2) // A-MULTI-END
+		2) //«c11»
 	y := 2 //«c3»
 	_ = y
 	if x > 0 { //«c4»
@@ -72,6 +72,10 @@ type S struct {
 	//«c8»
 	b int // S-B
 } // S-END
+
+var top = 1 //«c12»
+
+var next = 2 // V-NEXT
 
 func B() {
 	z := 3
@@ -98,8 +102,8 @@ func ZZC07SpellingsStmt() { c07Scopes(2) }
 
 func c07Scopes(spellAt int) {
 	holes := []nd.Hole{}
-	sp := make([]string, 11)
-	names := []string{"c0", "c1", "c2", "c3", "c4", "c5", "c6", "c7", "c8", "c9", "c10"}
+	sp := make([]string, 13)
+	names := []string{"c0", "c1", "c2", "c3", "c4", "c5", "c6", "c7", "c8", "c9", "c10", "c11", "c12"}
 	active := 0
 	for i, n := range names {
 		switch {
@@ -114,7 +118,7 @@ func c07Scopes(spellAt int) {
 		holes = append(holes, nd.Hole{Name: n, Value: sp[i]})
 		active += nd.IteInt(nd.HasPrefix(sp[i], " @ignore "), 1, 0)
 	}
-	nd.Assume(active <= 2) // stated bound: at most two markers at a time (all 11 placements, all pairs)
+	nd.Assume(active <= 2) // stated bound: at most two markers at a time (all 13 placements, all pairs)
 	files := []nd.File{{Pkg: "zzmod/d", Name: "d.go", Src: c07Src}}
 	prog := nd.LoadProgram(files, holes)
 	var raw []analysis.Diagnostic
@@ -128,7 +132,7 @@ func c07Scopes(spellAt int) {
 	scopes := []c07Scope{
 		{sp[0], off("//«c0»"), fileEnd},                              // before the package clause: whole file
 		{sp[1], off("//«c1»"), off("} // A-END") + 1},                // alone before a declaration: the whole declaration
-		{sp[2], off("//«c2»"), off(") // A-MULTI-END") + 1},          // alone inside a body: the whole following statement
+		{sp[2], off("//«c2»"), off("2) //«c11»") + 2},          // alone inside a body: the whole following statement
 		{sp[3], lineStart("//«c3»"), off("//«c3»") + width},          // trailing code: its own line
 		{sp[4], lineStart("//«c4»"), off("//«c4»") + width},          // trailing "if ... {": its own line
 		{sp[5], off("//«c5»"), off("//«c5»") + width},                // last in a body: nothing follows
@@ -137,6 +141,8 @@ func c07Scopes(spellAt int) {
 		{sp[8], off("//«c8»"), off("b int // S-B") + len("b int")},    // alone before a struct field: the field
 		{sp[9], off("//«c9»"), off("var q int // B-VAR") + len("var q int")}, // alone before a local declaration (the comment is its Doc)
 		{sp[10], lineStart("//«c10»"), off("//«c10»") + width},       // trailing a line that only closes a block: its own line
+		{sp[11], lineStart("//«c11»"), off("//«c11»") + width},       // trailing the LAST line of a multi-line statement: that line only
+		{sp[12], lineStart("//«c12»"), off("//«c12»") + width},       // trailing a one-line package-level declaration: its own line
 	}
 	code := nd.Enum("q_code", "IMM01", "IMM02", "CTOR02", "CTOR01", "TONL01", "PKGO03", "IMPL02")
 	qoff := nd.Int("q_offset")
@@ -146,7 +152,8 @@ func c07Scopes(spellAt int) {
 	for _, s := range scopes {
 		want = nd.Or(want, nd.And(c07Matches(s.spelling, code), s.start <= qoff, qoff <= s.end))
 	}
-	nd.Known("C07/statement-scope-ends-at-statement-start", nd.And(nd.HasPrefix(sp[2], " @ignore "), off("//«c2»")+width < qoff, qoff <= off(") // A-MULTI-END")+1))
+	nd.Known("C07/statement-scope-ends-at-statement-start", nd.And(nd.HasPrefix(sp[2], " @ignore "), off("//«c2»")+width < qoff, qoff <= off("2) //«c11»")+2))
+	nd.Known("C07/trailing-marker-on-package-level-declaration", nd.HasPrefix(sp[12], " @ignore "))
 	got := set.Contains(code, prog.PosOf("/zz/zzmod/d/d.go", qoff))
 	nd.Observe("got", got)
 	nd.Assert(got == want, "suppressed iff a matching marker's documented scope contains the position")
